@@ -109,7 +109,8 @@ pub fn probe_cancel_all(w: &mut World) -> Value {
 		let inst = w.inst(&wn);
 		let mask = w.mask(&wn);
 		let mut cancels = vec![];
-		let txs = crate::world::guarded(|| owner::retrieve_txs(inst.clone(), mask.as_ref(), &None, false, None, None, None));
+		// refresh first: what the chain has confirmed meanwhile is not pending any more
+		let txs = crate::world::guarded(|| owner::retrieve_txs(inst.clone(), mask.as_ref(), &None, true, None, None, None));
 		if let Outcome::Ok((_, txs)) = txs {
 			for t in txs {
 				let pending = !t.confirmed
@@ -134,6 +135,23 @@ pub fn probe_cancel_all(w: &mut World) -> Value {
 	Value::Object(res)
 }
 
+/// TLC's Json module cannot read null: replace by "" (arrays for "reopen")
+pub fn denull(v: Value) -> Value {
+	match v {
+		Value::Null => json!(""),
+		Value::Array(a) => Value::Array(a.into_iter().map(denull).collect()),
+		Value::Object(m) => Value::Object(
+			m.into_iter()
+				.map(|(k, x)| {
+					let x2 = if x.is_null() && k == "reopen" { json!([]) } else { denull(x) };
+					(k, x2)
+				})
+				.collect(),
+		),
+		x => x,
+	}
+}
+
 /// run the crash / fault enumeration of `op` in the current state of `w`.
 /// Emits: the normal run of op (event "op", with n = number of boundaries), then for
 /// every k and mode an event "crash" with the projected state after re-opening, the
@@ -152,7 +170,7 @@ pub fn enumerate(w: &mut World, op: &Value, bid: usize, modes: &[Mode], out: &mu
 	e0["b"] = json!(bid);
 	e0["boundaries"] = json!(hits);
 	e0["obs"] = w.obs();
-	out.push(e0.to_string());
+	out.push(denull(e0).to_string());
 	let regs_after = w.regs();
 	let base_post = probe_cancel_all(w);
 	for k in 1..=n {
@@ -183,7 +201,7 @@ pub fn enumerate(w: &mut World, op: &Value, bid: usize, modes: &[Mode], out: &mu
 				"queries": q, "recover": rec, "base_pre": base_pre, "base_post": base_post,
 				"obs": obs, "obs2": w.obs(),
 			});
-			out.push(ev.to_string());
+			out.push(denull(ev).to_string());
 		}
 	}
 	// leave the world in the state after the completed operation
